@@ -213,11 +213,15 @@ Boolean RetrieveCodeFromChunkList(
              pChunk < pCodeChunkList->Chunks + pCodeChunkList->RealLen; pChunk++) {
             OverlapStart = max(pChunk->Start, Start);
             OverlapEnd   = min(pChunk->Start + pChunk->Length - 1, Start + Count - 1);
-            if (OverlapStart <= OverlapEnd) {
+            /* the chunk has to hold the next byte wanted, and what has been copied is
+               not wanted again */
+
+            if ((OverlapStart == Start) && (OverlapStart <= OverlapEnd)) {
                 unsigned PartLength = OverlapEnd - OverlapStart + 1;
 
                 memcpy(pData, pChunk->pCode + (OverlapStart - pChunk->Start), PartLength);
                 pData += PartLength;
+                Start += PartLength;
                 Count -= PartLength;
                 Found = True;
                 break;
